@@ -907,6 +907,19 @@ def _tabled1(ctx):
                 rest = last
             if rest is None:
                 continue
+            # a loop that provably runs zero times on this path writes nothing: the line starts with what follows it.  Only on a path that some
+            # table length takes (witness), so that a missing head is a fact about a real table and not about dead code
+            while rest and rest[0][0] == "each" and getattr(rest[0][1], "d", None) is not None:
+                it_ = rest[0][1].d.get("iter")
+                if not (isinstance(it_, tuple) and it_[:1] == ("range",) and len(it_) >= 4 and isinstance(it_[1], Lin) and isinstance(it_[2], Lin)):
+                    break
+                _, hi0 = M.bounds(it_[2] - it_[1], s.facts)
+                if hi0 is None or hi0 > 0:
+                    break
+                if _witness([("len", ("sym", "t"))], tuple(s.facts), lambda a_: True, ranges={("len", ("sym", "t")): (1, 48)}) is None:
+                    break
+                lasthead.at(rest[0][1].node) if getattr(rest[0][1], "node", None) is not None else None
+                rest = rest[1:]
             # head of the last line
             if rest and rest[0][0] == "lit":
                 h = rest[0][1]
